@@ -180,11 +180,15 @@ type Security struct {
 type GRPCMap struct {
 	// Message lists request message attributes explicitly (GRPC(func(){ Message(func(){ Attribute(..) }) }));
 	// attributes not listed (and not in Metadata) are added to the message by goa.
-	Message  []Map  `json:"message,omitempty"`
-	Metadata []Map  `json:"metadata,omitempty"`
-	Headers  []Map  `json:"headers,omitempty"`
-	Trailers []Map  `json:"trailers,omitempty"`
-	Code     string `json:"code,omitempty"`
+	Message  []Map `json:"message,omitempty"`
+	Metadata []Map `json:"metadata,omitempty"`
+	Headers  []Map `json:"headers,omitempty"`
+	Trailers []Map `json:"trailers,omitempty"`
+	// RespMessage lists response message attributes explicitly
+	// (GRPC(func(){ Response(CodeOK, func(){ Message(func(){ Attribute(..) }) }) })); result attributes
+	// not listed (and not in Headers / Trailers) are added to the message by goa.
+	RespMessage []Map  `json:"resp_message,omitempty"`
+	Code        string `json:"code,omitempty"`
 }
 
 // Method is one service method.
